@@ -264,6 +264,29 @@ def transitions(R, F, inst):
         n += 1
         add, sub, clr, setw, drain = sites(fn)
         un = unrecognised(fn, {("fetch_sub", 1)})
+        if un == ["fetch_or(%d)" % KWRITE] and not setw:
+            # the writer bit is claimed inline instead of through setWriteBit(): that is only a claim
+            # if the result is tested and the claim retried while another writer owned the bit
+            ors = [a for a in atomic_ops(F, fn) if a.field == WORD and a.op == "fetch_or"]
+            tested = False
+            for a in ors:
+                sid = a.node["sid"]
+                rv = None
+                for p, e in fn.events():
+                    if e.get("k") == "decl" and isinstance(strip_casts(e.get("init")), dict) and strip_casts(e["init"]).get("sid") == sid:
+                        rv = e["vid"]
+                    if e.get("k") == "bin" and e.get("op") == "=" and isinstance(strip_casts(e.get("r")), dict) and strip_casts(e["r"]).get("sid") == sid and isinstance(strip_casts(e.get("l")), dict):
+                        rv = strip_casts(e["l"]).get("vid")
+                from .rules import natural_loops
+                for h, body, tails in natural_loops(fn):
+                    for at, pol, _ in fn.cond_atoms((fn.term(h) or {}).get("cond"), True, h):
+                        if _tests_write_bit(at, vid=rv, sid=sid) and pol:
+                            tested = True
+            n += 1
+            R.ob(inst, fn, ors[0].node if ors else fn.loc, tested, "upgrade claims the writer bit in a retry loop that tests the previous value" if tested else
+                 "upgrade sets the writer bit with a single fetch_or whose result is ignored: if another writer (a try_lock in its drain window, a lock()) owns the bit, both believe they own it once the readers have drained",
+                 sitekey="upgrade", why="dropping the reader count before owning the writer bit lets another writer in; not dropping it deadlocks the drain")
+            continue
         if un:
             R.inconclusive(inst, "lock_upgrade is written with %s: no model for this shape" % ", ".join(un))
             continue
